@@ -500,6 +500,26 @@ def r7_drain_keep_rest(ctx, P, R="C08.R7"):
                     if not expr_mentions(ef[2][0], lambda x: x[0] == "call" and x[1].split("::")[-1] == "as_ptr"):
                         ok = False
                         why.append(f"unexpected copy source {show(ef[2][0])[:60]}")
+            # a move may be skipped only on a path whose condition says the part is already in place
+            def cond_false(pred):
+                for c, k in conds:
+                    c2 = c
+                    if c2[0] == "bin" and c2[1] == "Ne" and pred(c2) and k == "0":
+                        return True
+                    if c2[0] == "bin" and c2[1] == "Eq" and pred(c2) and k != "0":
+                        return True
+                return False
+            zst = any(expr_mentions(c, lambda x: x[0] == "assoc_const" and x[2] == "IS_ZST") and k != "0" for c, k in conds)
+            has_tail = any(expr_mentions(ef[2][0], lambda x: x[0] == "field" and x[2] == "tail_start") for ef in cps)
+            has_mid = any(not expr_mentions(ef[2][0], lambda x: x[0] == "field" and x[2] == "tail_start") for ef in cps)
+            if not zst and ok:
+                if not has_tail and not cond_false(lambda c: expr_mentions(c, lambda x: x[0] == "field" and x[2] == "tail_start")):
+                    ok = False
+                    why.append("the tail is not moved on a path that does not establish `tail_start == start + unyielded_len`: with elements "
+                               "taken only from the back (next_back) the tail is lost and yielded elements stay in")
+                if not has_mid and not cond_false(lambda c: expr_mentions(c, lambda x: x[0] == "call" and x[1].split("::")[-1] == "as_ptr")):
+                    ok = False
+                    why.append("the un-yielded part is not moved on a path that does not establish that it already sits at the start")
             if len(cps) == 2 and ok:
                 a, t = (cps[0], cps[1]) if not expr_mentions(cps[0][2][0], lambda x: x[0] == "field" and x[2] == "tail_start") else (cps[1], cps[0])
                 if affine(a[2][1], elemT) + _mul(affine(a[2][2], elemT), Sz) != affine(t[2][1], elemT):
@@ -579,4 +599,5 @@ def run(ctx, progs):
         c06.r1_len_before_drop(ctx, P, R="C08.R8")
         from . import twins
         twins.rule(ctx, P, "C08.R11", "bump_vec::BumpVec<", "mut_bump_vec::MutBumpVec<", 12 if "nodefault" in (ctx.config or "") else 15)
+        c06.r11_dedup_protocol(ctx, P, R="C08.R12")
     ctx.config = None
